@@ -198,7 +198,18 @@ class SyncIter(Iterable):
         if self._stopped is None:
             return
         self._stopped.set()
-        self._worker_thread.join()
+        q = self._q
+        while True:
+            # The worker may be blocked in `q.put`; it sees the flag only after
+            # that `put` returns, hence make room until it has left.
+            self._worker_thread.join(0.01)
+            if not self._worker_thread.is_alive():
+                break
+            while True:
+                try:
+                    q.get_nowait()
+                except queue.Empty:
+                    break
         self._stopped = None
 
     def __iter__(self):
